@@ -201,6 +201,33 @@ impl Pools {
         // the prime itself and its Rader inner length are always present and come first
         v
     }
+    /// A run of 3-6 neighbouring primes (each optionally times 2 or 3), mostly in increasing order: successive requests
+    /// whose Rader/Bluestein stages need slightly more workspace each time (state a planner might keep between requests
+    /// and size by its history).
+    pub fn prime_run(&self, rng: &mut Rng) -> Vec<usize> {
+        let mut primes: Vec<usize> = (37..=self.nmax.min(4000)).filter(|&p| is_prime(p)).collect();
+        if primes.len() < 8 {
+            primes = vec![37, 41, 43, 47, 53, 59, 61, 67];
+        }
+        // short runs near the bottom are as interesting as anywhere else: draw the start with a bias to small primes
+        let span = primes.len() - 6;
+        let start = (rng.below(span as u64) as usize).min(rng.below(span as u64) as usize);
+        let m = 3 + rng.below(4) as usize;
+        let stride = 1 + rng.below(3) as usize;
+        let mut v: Vec<usize> = (0..m).map(|i| primes[(start + i * stride).min(primes.len() - 1)]).collect();
+        if rng.chance(0.3) {
+            for x in v.iter_mut() {
+                *x *= *rng.pick(&[1usize, 2, 3]);
+            }
+        }
+        v.retain(|&x| x <= self.nmax);
+        match rng.below(20) {
+            0..=11 => {}
+            12..=14 => v.reverse(),
+            _ => rng.shuffle(&mut v),
+        }
+        v
+    }
     pub fn pick_chain(&self, rng: &mut Rng) -> usize {
         if rng.chance(0.7) && !self.lattice.is_empty() {
             *rng.pick(&self.lattice)
